@@ -141,9 +141,18 @@ def check_accept(case):
         try:
             mediatypes.quality('text/plain', header)
         except falcon_errors.InvalidMediaRange:
-            header_valid = False
-            ranges = None
-            labels.append('q_more_than_3_digits_rejected')
+            # tolerated only when the extra digits are the reason: the same header with the q
+            # values cut to three digits must be accepted
+            short = render_header([dict(m, q=[m['q'][0], m['q'][1][:3]]) if m.get('q') and m['q'][1] else m
+                                   for m in members])
+            try:
+                mediatypes.quality('text/plain', short)
+            except ValueError:
+                pass
+            else:
+                header_valid = False
+                ranges = None
+                labels.append('q_more_than_3_digits_rejected')
     if not cands_valid:
         labels.append('candidates:invalid_member')
     nontrivial = False
@@ -251,7 +260,7 @@ class Accept(Suite):
     real falcon.Request built from a WSGI environ must agree."""
 
     name = 'accept'
-    budget = {'quick': 30000, 'thorough': 600000}
+    budget = {'quick': 30000, 'thorough': 500000}
 
     def strategy(self, tier):
         return gen.accept_cases('main')
@@ -548,9 +557,9 @@ class HandlerHistory(Suite):
     """Operation histories (set, delete, update via dict/pairs/kwargs/Handlers, pop with and
     without default, popitem, clear, setdefault, |= via dict/pairs/Handlers, |, copy() into either
     slot) over one or two falcon.media.Handlers objects next to a plain dict model.  After every
-    step, on every live object, every probe content type (each exact key of the universe, keys
-    with parameters / other spelling, wildcard forms, '*/*', None, '', unsupported, malformed,
-    q=0, generated 1-2 range lists) x 2 default types x raise_not_found in (True, False) must
+    step, on every live object, every probe content type (each exact key of the universe, None,
+    '*/*', plus 2-6 generated ones: keys with parameters / other spelling / quoted values / q,
+    wildcard forms, '', unsupported, malformed) x 2 default types x raise_not_found in (True, False) must
     resolve, by identity, to the handler the model designates under the documented rule, or raise
     HTTPUnsupportedMediaType / return (None, None, None)."""
 
@@ -574,6 +583,7 @@ class HandlerHistory(Suite):
             model = dict(d)
         slots = {'A': Mapping(real, model, 0)}
         probes = [probe_text_struct({'k': k}) for k in range(NKEYS)]
+        probes += [probe_text_struct({'raw': None}), probe_text_struct({'raw': '*/*'})]
         probes += [probe_text_struct(p) for p in case['probes']]
         defaults = [probe_text_struct(p) for p in case['defaults']]
         seen = {}
